@@ -328,4 +328,13 @@ def rule_bootstrap(ctx):
     return rule_r5(ctx)
 
 
-RULES = [("C09-R1", rule_r1), ("C09-R2", rule_r2), ("C09-R3", rule_r3), ("C09-R4", rule_r4), ("C14-R5", rule_bootstrap)]
+def rule_c06r11(ctx):
+    """Names the symbol table gives to implicit scopes (`genexpr`, `listcomp`, ...) are legal user
+    identifiers: treating a table specially by such a name alone captures a user function (shared
+    rule C06-R11)."""
+    from .c06 import rule_r11 as r
+
+    return r(ctx)
+
+
+RULES = [("C06-R11", rule_c06r11), ("C09-R1", rule_r1), ("C09-R2", rule_r2), ("C09-R3", rule_r3), ("C09-R4", rule_r4), ("C14-R5", rule_bootstrap)]
